@@ -671,8 +671,8 @@ def check(run, replay):
         "(E2E_cap_nonbinding), and the shuffle is irrelevant (E2E_shuffle_sampler_independent)",
         "header line ASCII, names distinct, without commas / quotes / surrounding blanks; label among them; B >= 1, s >= 1",
         "the file is read as latin-1: text = list of byte values; no NUL, no field longer than csv.field_size_limit()",
-        "Constant without a tail batch ends in FileNotFoundError at os.remove('ranking_checkpoint_tmp.tsv') AFTER the outputs "
-        "were written (known observation of C08/C09); the table written before is compared, the exception is counted, not flagged",
+        "the former Constant crash (no tail batch: FileNotFoundError at os.remove('ranking_checkpoint_tmp.tsv') after the outputs "
+        "were written) was repaired in /repo by fix 4add6a4 (D26); an abnormal end of a Constant run is now reported like any other",
         "module globals of outrank.core_ranking are reset by the harness between files",
     ]
     run.trusted += ["harness: tools/props/e2e.py (generator, float-vs-rational decision, diagnosis, shrinker), tools/impl/impl_e2e.py "
